@@ -6,8 +6,13 @@
 use std::{
     collections::{hash_map::DefaultHasher, HashMap, HashSet},
     hash::{Hash, Hasher},
-    sync::Mutex,
 };
+// Verification hook (guard: `--cfg qrlew_verif`): the counter's lock is taken from the simulator
+// so that its scheduler decides who gets it; the shipped build uses std's.
+#[cfg(qrlew_verif)]
+use shuttle::sync::Mutex;
+#[cfg(not(qrlew_verif))]
+use std::sync::Mutex;
 
 use crate::encoder::{Encoder, BASE_37};
 
@@ -24,6 +29,7 @@ static COUNTER: Mutex<Option<HashMap<String, usize>>> = Mutex::new(None);
 
 /// A function used to count named objects
 fn count<S: Into<String>>(key: S) -> usize {
+    crate::verif_point("namer::count");
     *COUNTER
         .lock()
         .unwrap()
@@ -77,6 +83,7 @@ pub fn new_name_outside<S: Into<String>, T: Into<String>, H: IntoIterator<Item =
 }
 
 pub fn name_from_content<S: Into<String>, H: Hash>(prefix: S, content: &H) -> String {
+    crate::verif_point("namer::name_from_content");
     format!(
         "{}_{}",
         prefix.into(),
